@@ -114,6 +114,22 @@ theorem reorgFold_ok (rect : R) (threshold fuel : Nat) (l : List (Item R)) (s : 
         simpa using this.append_right s.1.all
       exact (h1.append_left t).trans List.perm_middle
 
+/-- `Reorganize` keeps the stored multiset — no invariant needed -/
+theorem reorganize_perm (fuel : Nat) (t : Tree R) : (t.reorganize fuel).all.Perm t.all := by
+  unfold Tree.reorganize
+  simp only
+  split
+  · rename_i hemp
+    have hnil : t.all = [] := by simpa using hemp
+    have ha : (Tree.mk none [] t.threshold t.nodeThr t.count : Tree R).all = [] := by rw [all_mk]; rfl
+    rw [ha, hnil]
+  · have hleaf : Node.Inv (Node.leaf (t.all.foldl (fun r one => L.union r one.rect) L.zero) ([] : List (Item R))) := by
+      intro x hx; simp at hx
+    obtain ⟨_, _, q3⟩ := reorgFold_ok (t.all.foldl (fun r one => L.union r one.rect) L.zero) t.thr fuel t.all
+      (Node.leaf (t.all.foldl (fun r one => L.union r one.rect) L.zero) [], []) hleaf rfl
+    rw [all_mk]; simp only [rootAll]
+    simpa [Node.all] using q3
+
 theorem reorganize_ok (bounds : Nat → R) (fuel : Nat) (t : Tree R) (h : TInv bounds t) :
     TInv bounds (t.reorganize fuel) ∧ (t.reorganize fuel).all.Perm t.all := by
   unfold Tree.reorganize
